@@ -1646,11 +1646,14 @@ package ucfg
 //@ ensures [stops] rvKind(r) != 22 || rvNil(r)
 //@ ensures [non_pointer_is_itself] rvKind(v) != 22 ==> r == v
 //@ loop 1 invariant rvKind(entry(v)) != 22 ==> v == entry(v)
+//@ ensures [nil_pointer_is_itself] rvKind(v) == 22 && rvNil(v) ==> r == v
+//@ loop 1 invariant rvKind(entry(v)) == 22 && rvNil(entry(v)) ==> v == entry(v)
 
 //@ ghost func chasedT(t reflect.Type) reflect.Type
 // consequences of the clauses [non_pointer_is_itself] of the two chase functions, stated for their ghost names
 //@ axiom [chase] forall v reflect.Value :: rvKind(v) != 22 ==> chasedP(v) == v
 //@ axiom [chase] forall t reflect.Type :: rtKind(t) != 22 ==> chasedT(t) == t
+//@ axiom [chase] forall v reflect.Value :: rvKind(v) == 22 && rvNil(v) ==> chasedP(v) == v
 // consequence of the clause [pointee_settable] of chaseValuePointers
 //@ axiom [chase] forall v reflect.Value :: rvKind(v) == 22 && !rvNil(v) ==> rvCanSet(chasedP(v))
 //@ func chaseTypePointers :: t -> r
@@ -1884,10 +1887,12 @@ package ucfg
 //@ func reifyInto :: opts, to, from -> result
 //@ props C07
 //@ sweep
+//@ checks-pre reifyMap reifyStruct
 //@ uses chase
 //@ norte assert
 //@ note the type assertion on the result of reflect's Interface() (a handle of type ucfg.Config, found by tryTConfig) is not claimed: the contracts do not relate reflect.Type values to static types
 //@ requires rvCanSet(chasedP(to)) || (rvKind(chasedP(to)) == 21 && !rvNil(chasedP(to)))
+//@ requires opts != nil && from != nil && from.fields != nil
 //@ modifies *
 //@ rvwrites rvRootOf(to), pointeeStore()
 
@@ -2240,7 +2245,8 @@ package ucfg
 //@ ghost func pzOf(t reflect.Type, base reflect.Type, v reflect.Value) reflect.Value
 //@ func pointerize :: t, base, v -> r
 //@ props C06 C07
-//@ sweep
+//@ nonil
+//@ pure
 //@ rvwrites nothing
 //@ ensures [naming !unproved] r == pzOf(t, base, v)
 //@ ensures [same_type] t == base ==> r == v
@@ -2329,7 +2335,8 @@ package ucfg
 
 //@ func tryTConfig :: value -> r, ok
 //@ props C07
-//@ sweep
+//@ nonil
+//@ pure
 //@ norte extern@(Value).Elem
 //@ ensures [addressable !unproved] ok ==> rvCanAddr(r)
 
